@@ -393,7 +393,15 @@ pub fn load_user_from_json(user_value: &serde_json::Value) -> Result<User> {
         .unwrap()
         .as_i64()
         .unwrap();
-    let enabled = user_map.get("enabled").unwrap().as_bool().unwrap();
+    //a user row received from a peer can lack 'enabled': like UserNode::parse and user_from_json, missing means true
+    //(the query then renders the default, which is not a JSON boolean)
+    let enabled = match user_map.get("enabled") {
+        Some(v) => match v.as_bool() {
+            Some(b) => b,
+            None => v.as_i64().map(|i| i != 0).unwrap_or(true),
+        },
+        None => true,
+    };
     let verifying_key = base64_decode(
         user_map
             .get("verif_key")
